@@ -12,4 +12,9 @@ def units(tier):
 
 
 def runner_tasks(tier):
-    return []
+    return [{"module": "c12", "task": "density", "kind": "bounded", "clause": "density / natural density by keyword, attribute, tag"},
+            {"module": "c12", "task": "replace", "kind": "bounded", "clause": "substitution"},
+            {"module": "c12", "task": "volume", "kind": "bounded", "clause": "volume estimates"}]
+
+
+REPLAY = {'module': 'c12', 'task': 'replay'}
